@@ -285,6 +285,20 @@ func (g *g4) strBytes() []byte {
 			b[i] = byte(32 + g.rng.IntN(95))
 		}
 	}
+	if n >= 4 && g.rng.IntN(6) == 0 {
+		// runs of extreme byte values (the largest and smallest 4-byte groups of
+		// the binary-to-text encodings)
+		start := g.rng.IntN(n - 3)
+		ln := 4 + g.rng.IntN(min(13, n-start-3))
+		v := []byte{0xFF, 0xFF, 0x00, 0xFE, 0x80}[g.rng.IntN(5)]
+		for i := start; i < start+ln && i < n; i++ {
+			b[i] = v
+		}
+		if g.rng.IntN(2) == 0 && start+ln-1 < n {
+			b[start+ln-1] = byte(0xA0 + g.rng.IntN(0x60))
+		}
+		g.feat["string with a run of extreme bytes"] = true
+	}
 	return b
 }
 
@@ -613,15 +627,26 @@ func (g *g4) sep(out *bytes.Buffer, canOmit, _ bool, dsc *[]dscLine, col0 *bool)
 				line += ": " + strings.Repeat(" ", g.rng.IntN(3)) + val
 			}
 			eol := []string{"\n", "\r", "\r\n"}[g.rng.IntN(3)]
-			line += eol
+			nextEOL := func() string { return eol }
+			if g.rng.IntN(3) == 0 {
+				// every line of the group with its own line end
+				nextEOL = func() string { return []string{"\n", "\r", "\r\n"}[g.rng.IntN(3)] }
+				g.f("DSC lines with mixed line ends")
+			}
+			line += nextEOL()
 			for g.rng.IntN(4) == 0 {
 				more := g.dscValue()
 				if more == "" {
 					more = "x"
 				}
-				line += "%%+" + strings.Repeat(" ", g.rng.IntN(3)) + more + eol
+				line += "%%+" + strings.Repeat(" ", g.rng.IntN(3)) + more + nextEOL()
 				full += " " + more
 				g.f("DSC continuation line")
+			}
+			if g.rng.IntN(5) == 0 {
+				// a key-less %% line (nothing is collected for it) before whatever follows
+				line += "%%" + nextEOL()
+				g.f("key-less %% line")
 			}
 			g.f(fmt.Sprintf("DSC line ended by %q", eol))
 			out.WriteString(line)
